@@ -4,8 +4,8 @@ import (
 	"fmt"
 	"go/ast"
 	"go/constant"
-	"strconv"
 	"go/types"
+	"strconv"
 	"strings"
 )
 
@@ -49,6 +49,8 @@ func (c *fctx) call(t *ast.CallExpr) string {
 		return "(" + arg(0) + " == " + arg(1) + ")"
 	case "bytes.HasPrefix":
 		return "(Go.hasPrefix " + arg(0) + " " + arg(1) + ")"
+	case "math/rand.Uint32":
+		return c.oracle("UInt32")
 	case "hash/crc32.ChecksumIEEE":
 		return "(Go.crc32IEEE " + arg(0) + ")"
 	case "fmt.Errorf", "errors.New":
@@ -94,6 +96,9 @@ func (c *fctx) userCall(ci *FuncInfo, t *ast.CallExpr, args []string) string {
 	s := "Gen." + ci.lean
 	for _, a := range args {
 		s += " " + a
+	}
+	for _, or := range ci.oracles { // the callee's external values become ours
+		s += " " + c.oracle(or.typ)
 	}
 	if ci.mayFail {
 		return "(← " + s + ")"
@@ -155,4 +160,11 @@ func (c *fctx) builtin(name string, t *ast.CallExpr) string {
 	}
 	bad("builtin %s at %s", name, c.site(t.Pos()))
 	return ""
+}
+
+// oracle: a value the code obtains from outside (math/rand) becomes a trailing parameter.
+func (c *fctx) oracle(typ string) string {
+	n := fmt.Sprintf("rnd%d", len(c.fi.oracles)+1)
+	c.fi.oracles = append(c.fi.oracles, oracle{n, typ})
+	return n
 }
